@@ -137,6 +137,10 @@ _t("T-F4", [(0, ("a", "c"), 1), (1, ("b", E_), 2), (2, (E_, "d"), 3), (3, ("a", 
 _t("T-G4", [(0, ("c", "e"), 0), (0, ("d", E_), 0)], init=[0], final=[0], note="1-state second operand")
 
 
+_t("T-R1", [(0, ("c", "a"), 1), (0, (E_, "a"), 1), (1, ("d", "b"), 1), (1, ("c", E_), 2), (1, (E_, E_), 2), (0, ("d", "b"), 2)],
+   init=[0], final=[2, 1], note="output alphabet {a,b}: grammar on the output side")
+
+
 def all_strings(V, maxlen):
     Vs = sorted(V, key=repr)
     for n in range(maxlen + 1):
